@@ -6,6 +6,7 @@ import (
 	"sync"
 	"time"
 
+	"pmc/internal/comp"
 	"pmc/internal/harness"
 	"pmc/internal/machine"
 	"pmc/internal/model"
@@ -217,6 +218,35 @@ func runC01(tier string) int {
 				}
 			}
 		}
+		// the sequence programs again with their body, every block, or single statements moved into the selected case of a
+		// poryswitch (the reference model is the plain program): poryswitch is part of how control flow is written
+		evalWrapped := func(w int, p engineProgram) {
+			scripts := []*model.Script{p.Script}
+			plain := model.Print(scripts)
+			o := &comp.Opts{Switches: map[string]string{"PV": "SEL"}}
+			for wi, src := range c12Wrappings(plain) {
+				r.Add("programs", 1)
+				r.Add("poryswitch_wrapped_programs", 1)
+				for _, opt := range []bool{true, false} {
+					ok, rej, st, v, out := checkScripts(scripts, src, opt, machine.Lazy, o)
+					if !ok {
+						r.Report(harness.Violation{Sig: fmt.Sprintf("C01:wrapped%d:rejected:%s", wi, firstWords(rej, 5)), Summary: fmt.Sprintf("%s: rejected once moved into a poryswitch case (wrapping %d): %s\n  source: %q", p.Desc, wi, rej, clip(src, 500)), Replay: map[string]interface{}{"source": src, "error": rej}})
+						continue
+					}
+					r.Add("evaluations", 1)
+					addStats(r, st)
+					if st.Reads > 0 && st.Events >= 2 {
+						r.Add("nontrivial", 1)
+					}
+					if v != nil {
+						r.Report(harness.Violation{Sig: violationSig("C01", v) + fmt.Sprintf(":wrapped%d", wi), Summary: fmt.Sprintf("%s inside a poryswitch case (wrapping %d) optimize=%v: %s\n  source: %q", p.Desc, wi, opt, v, clip(src, 500)),
+							Replay:  map[string]interface{}{"desc": p.Desc, "source": src, "optimize": opt, "switches": o.Switches, "reference_next_event": v.A.String(), "emitted_next_event": v.B.String(), "observable_prefix": v.Trace, "emitted_assembly": out},
+							Recheck: func() bool { _, _, _, v2, _ := checkScripts(scripts, src, opt, machine.Lazy, o); return v2 != nil }})
+					}
+				}
+			}
+		}
+		forEachSequenceProgram(r, seqLen-1, evalWrapped)
 		forEachSequenceProgram(r, seqLen, evalProg)
 		if !r.Expired() {
 			forEachScaledProgram(r, evalProg)
@@ -235,7 +265,7 @@ func runC01(tier string) int {
 		"reference lowering (model/lower.go) = meaning of the README for if/elif/else, while, do...while, break, continue, switch, labels, goto",
 		"operands are distinct per leaf, so every path is feasible (a superset of programs that reuse operands)")
 	return r.Finish(r.Get("evaluations"), r.Get("nontrivial"),
-		"every script body with exactly n nodes of each family (count+unrank, bijective, so cases are distinct by construction) x every goto assignment, plus every sequence of <= L statement templates (25 templates covering every construct), plus scaled programs (every template repeated K times, every block kind nested K deep, switches with K cases, for every K up to the scale bounds in the coverage), plus two-script files in which gotos cross between the scripts (targets: own labels, a label in the middle of the other script, the other script, an external name), x optimize on/off; each case = full product exploration reference x emitted, all game states closed by a visited set; non-trivial = at least one environment branch point and >= 2 distinct observable events")
+		"every script body with exactly n nodes of each family (count+unrank, bijective, so cases are distinct by construction) x every goto assignment, plus every sequence of <= L statement templates (25 templates covering every construct), plus the sequences of <= L-1 templates with their body, every block, or one statement moved into the selected case of a poryswitch, plus scaled programs (every template repeated K times, every block kind nested K deep, switches with K cases, for every K up to the scale bounds in the coverage), plus two-script files in which gotos cross between the scripts (targets: own labels, a label in the middle of the other script, the other script, an external name), x optimize on/off; each case = full product exploration reference x emitted, all game states closed by a visited set; non-trivial = at least one environment branch point and >= 2 distinct observable events")
 }
 
 // c01Shape is a coarse shape tag for findings matching.
